@@ -144,6 +144,12 @@ func rebootBlob(key string, complete bool, pather *pather) (res *rebootedBlob, o
 			return nil, false, fmt.Errorf("get incomplete blob size from sidecar file: %w", err)
 		}
 		if !ok {
+			// The process died inside Create, before the size sidecar was written.
+			// The blob cannot be restored with its reserved size, so drop what is
+			// left of it: otherwise the key could never be created again.
+			if err := os.RemoveAll(pather.dirPath(key, _incompleteBlob)); err != nil {
+				return nil, false, fmt.Errorf("remove unrestorable incomplete blob: %w", err)
+			}
 			return nil, false, nil
 		}
 	}
@@ -174,7 +180,9 @@ func rebootIncompleteBlobSize(key string, pather *pather) (size uint64, ok bool,
 	}
 	blobSize, err := strconv.Atoi(string(blobSizeData))
 	if err != nil {
-		return 0, false, fmt.Errorf("blob size sidecar file is in unexpected format: %w", err)
+		// The sidecar is created and then written, so a crash in between leaves it
+		// empty or partial. Fail open like a missing sidecar: the blob is dropped.
+		return 0, false, nil
 	}
 	return uint64(blobSize), true, nil
 }
